@@ -45,7 +45,7 @@ func (g *Gen) calleeDef() ([]L.Stmt, func(args []L.Expr) *L.CallExpr, string, L.
 	}
 	usesDots := false
 	if vararg {
-		switch g.n(4, "varform") {
+		switch g.n(5, "varform") {
 		case 0:
 			log = append(log, call(name("select"), str("#"), &L.VarargExpr{}), &L.VarargExpr{})
 			usesDots = true
@@ -61,6 +61,12 @@ func (g *Gen) calleeDef() ([]L.Stmt, func(args []L.Expr) *L.CallExpr, string, L.
 				log = append(log, bin("and", bin(">", call(name("select"), str("#"), &L.VarargExpr{}), num(0)), paren(call(name("select"), num(-1), &L.VarargExpr{}))))
 				g.class("call:select_negative")
 			}
+			usesDots = true
+		case 3:
+			// select(k, ...) for k inside, at and beyond the end of the list (beyond: no values, not an error)
+			k := float64(1 + g.n(7, "selk"))
+			log = append(log, call(name("select"), str("#"), call(name("select"), num(k), &L.VarargExpr{})), call(name("select"), num(k), &L.VarargExpr{}))
+			g.class("call:select_k")
 			usesDots = true
 		default:
 			log = append(log, paren(&L.VarargExpr{}))
@@ -81,7 +87,23 @@ func (g *Gen) calleeDef() ([]L.Stmt, func(args []L.Expr) *L.CallExpr, string, L.
 		sig += "v"
 	}
 	sig += "r" + strconv.Itoa(nr)
-	switch g.n(5, "calleekind") {
+	switch g.n(6, "calleekind") {
+	case 5:
+		// a callee that needs no register beyond its parameters: it only returns some of them (last one included)
+		if np > 0 {
+			sig += ":bare"
+			var rs []L.Expr
+			for i, n := 0, 1+g.n(3, "barerets"); i < n; i++ {
+				rs = append(rs, name(params[(np-1+i*(np-1))%np]))
+			}
+			if vararg && g.n(2, "baredots") == 0 {
+				rs = append(rs, &L.VarargExpr{})
+			}
+			bare := fn(params, vararg, blk(ret(rs...)))
+			g.class("call:bare_callee")
+			return []L.Stmt{&L.LocalFuncStmt{Name: fname, Fn: bare}}, func(a []L.Expr) *L.CallExpr { return call(name(fname), a...) }, sig, name(fname), nil
+		}
+		fallthrough
 	case 0, 1:
 		sig += ":lua"
 		return []L.Stmt{&L.LocalFuncStmt{Name: fname, Fn: fe}}, func(a []L.Expr) *L.CallExpr { return call(name(fname), a...) }, sig, name(fname), nil
@@ -191,7 +213,7 @@ func (g *Gen) tplCallShape() []L.Stmt {
 			ce = call(name("xpcall"), fn(nil, g.fn.vararg, blk(ret(mk(args)))), name("tostring"))
 		}
 	}
-	ctx := g.n(11, "resctx")
+	ctx := g.n(13, "resctx")
 	g.class("callsig:" + sig + ":ctx" + strconv.Itoa(ctx))
 	switch ctx {
 	case 0:
@@ -230,6 +252,19 @@ func (g *Gen) tplCallShape() []L.Stmt {
 			out = append(out, emit(call(paren(w), &L.VarargExpr{})))
 		} else {
 			out = append(out, emit(call(paren(w))))
+		}
+	case 11, 12:
+		// a proper tail call: the call is all the wrapper returns
+		w := fn(nil, g.fn.vararg, blk(ret(ce)))
+		if ctx == 12 {
+			// ... from a wrapper that has parameters and locals of its own below the call
+			w = fn([]string{"w1", "w2"}, g.fn.vararg, blk(local1("w3", bin("..", str("w"), str("3"))), ret(ce)))
+		}
+		g.class("call:pure_tail_call")
+		if g.fn.vararg {
+			out = append(out, emit(call(paren(w), &L.VarargExpr{})))
+		} else {
+			out = append(out, emit(call(paren(w), num(1), num(2))))
 		}
 	case 9:
 		// multiple assignment to existing targets of different kinds
